@@ -2,7 +2,7 @@
    the first matching one of the SORTED expanded usages: the choice is independent of the
    order in which the hash set yields them, for every set of usages and every matcher. *)
 From Coq Require Import List String Bool Permutation.
-From RashV Require Import Order OrderProofs.
+From RashV Require Import Order OrderProofs Tail TailProofs.
 Import ListNotations.
 
 Theorem C09_sorted_choice_is_order_independent :
@@ -16,3 +16,9 @@ Proof. exact sort_perm. Qed.
 Theorem C09_unsorted_choice_refuted :
   exists (m : string -> bool) us us', Permutation us us' /\ find m us <> find m us'.
 Proof. exact unsorted_choice_refuted. Qed.
+
+(* on the mirror of the whole last stage (sort, classify, seed, first match, bind, merge, help):
+   acceptance AND variables are independent of the order the hash set yields the expanded usages *)
+Theorem C09_tail_result_is_order_independent : forall t argv us us',
+  Permutation us us' -> parse_tail t argv us = parse_tail t argv us'.
+Proof. exact parse_tail_order_independent. Qed.
